@@ -33,7 +33,9 @@ ASSUMPTIONS = [
 SHARDS = 16
 READY = True
 
-NAMES = ["x-a", "X-A", "X-a", "x-A", "Set-Cookie", "set-cookie", "SET-COOKIE", "b"]
+NAMES = ["x-a", "X-A", "X-a", "x-A", "Set-Cookie", "set-cookie", "SET-COOKIE", "b",
+         # token characters other than letters and '-' (case mapping must treat them consistently everywhere)
+         "p3p", "P3P", "x_trace_id", "X_Trace_Id", "x-amz-s3b", "X-Amz-S3B", "a.b!c", "A.B!C"]
 VALUE_ALPHABET = "ab,;=\"\\1 \t\x80\xff~!:"
 
 
